@@ -8,17 +8,33 @@ correspondence harness `harness/C20`).  A run is ANY list of steps `request c im
 response broadcast, for any number of callers and images.  `complete img res` is enabled only
 while a pull goroutine for `img` exists (`enabled`, stated explicitly below); a disabled step
 does not happen.  No bound on callers, images or steps appears anywhere.
+
+That one call of `handleRequest` / `handleResponse` is one step rests on their lock scope.  It is
+(1) read off the source on every run (`locks_cover_bodies`, `pull_runs_outside_lock`,
+`only_lock_holders_touch_table`, `sent_package_is_fresh_copy` compare the regenerated
+`Pko.Gen.ReqMgrLocks` with the expectation), and (2) justified against the statement-level model
+`Pko.Model.ReqMgrFine`, in which the lock, each loop iteration of the broadcast and the deletion of
+the entry are separate steps: a request attempted while a broadcast holds the lock does not
+happen (`request_blocked_while_broadcasting`), every fine step is the lock-atomic steps of its
+linearisation (`fine_step_linearizes`), so every statement-level interleaving, once the broadcast
+in progress has finished, is a state of the lock-atomic machine (`fine_run_linearizes`) and all
+theorems below transfer (`fine_at_most_one_pull`, `parked_request_served_after_broadcast`).
 -/
 import Pko.Model.ReqMgr
 import Pko.Model.ReqMgrSpec
 import Pko.Model.ReqMgrTrace
+import Pko.Model.ReqMgrFine
+import Pko.Gen.ReqMgrLocks
 import Pko.Lemmas.C20Sends
 import Pko.Lemmas.C20Inv
 import Pko.Lemmas.C20Refine
+import Pko.Lemmas.C20Fine
+import Pko.Lemmas.C20Trace
 
 namespace Pko.Props.C20
 open Pko.Model Pko.Model.ReqMgr Pko.Model.ReqMgrTrace Pko.Lemmas.C20Sends Pko.Lemmas.C20Inv Pko.Lemmas
 open Pko.Model.ReqMgrSpec (Spec abs)
+open Pko.Model.ReqMgrFine (FState FOp fstep frun finit settled lin linRun)
 
 /-! ### The explicit precondition of `complete` -/
 
@@ -216,22 +232,161 @@ theorem model_obs_eq_spec (n : Nat) (ops : List Op) (op : Op) :
   rw [← run_refines]
   exact C20Refine.obs_refines n _ op (reachable_inv ops)
 
-/-- **model_trace_eq_spec_trace** (monitor ↔ model, whole scenario): for EVERY scenario the
-harness can execute (requests, busy callers, completions, disabled completions, final drain) the
-trace of the model of the Go code is, record for record, the trace of the specification.  The
-driver's `model` prints `(trace modelMachine steps).map renderRec` and its `monitor` accepts an
-implementation line iff its records equal `(trace specMachine steps).map renderRec`; hence
-`monitor s (model s) = "ok"`: the model satisfies the monitored property on every scenario. -/
-theorem model_trace_eq_spec_trace (steps : List SStep) :
-    trace modelMachine steps = trace specMachine steps := by
+/-- **model_trace_collapse_eq_spec** (monitor ↔ model, whole scenario): for EVERY scenario the
+harness can execute (requests, busy callers, completions, disabled completions, parked
+completions with requests arriving in the middle of the broadcast, final drain) the trace of the
+model of the Go code - parked broadcasts executed statement by statement on `ReqMgrFine` and
+looked at once they are over (`collapse`) - is, record for record, the trace of the
+specification.  The driver's `model` prints `trace modelMachine steps`; its `monitor` collapses the
+implementation's records of every parked broadcast in the same way and accepts the line iff the
+result equals `traceC specMachine steps`: the model satisfies the monitored property on every
+scenario. -/
+theorem model_trace_collapse_eq_spec (steps : List SStep) :
+    traceC modelMachine steps = traceC specMachine steps := by
   have h0 : C20Refine.Sim modelMachine.init specMachine.init := ⟨inv_init, rfl⟩
-  have h1 := C20Refine.runSteps_sim steps _ _ h0
-  have h2 := C20Refine.drain_sim (List.range nImg) _ _ h1.2
-  simp only [trace]
+  have h1 := C20Trace.runSteps_sim steps _ _ h0
+  have h2 := C20Trace.drain_sim (List.range nImg) _ _ h1.2
+  simp only [traceC, traceG, List.map_append, List.map_cons, List.map_nil]
   rw [h1.1, h2.1]
   have : modelMachine.view (drain modelMachine (runSteps modelMachine modelMachine.init steps).2 (List.range nImg)).2
       = specMachine.view (drain specMachine (runSteps specMachine specMachine.init steps).2 (List.range nImg)).2 := h2.2.2
   rw [this]
+
+/-- Without parked broadcasts every step prints exactly one record (on any machine), so judging
+the collapsed trace is judging the printed one. -/
+theorem trace_eq_traceC_of_no_park {σ : Type} (m : Machine σ) (steps : List SStep)
+    (hnp : ∀ st ∈ steps, st.isPark = false) : trace m steps = traceC m steps := by
+  have hone : ∀ (l : List Grp), (∀ g ∈ l, ∃ r, g = .one r) → l.flatMap flat = l.map collapse := by
+    intro l hl
+    induction l with
+    | nil => rfl
+    | cons g l ih =>
+      obtain ⟨r, rfl⟩ := hl g (by simp)
+      simp only [List.flatMap_cons, List.map_cons, flat, collapse, List.singleton_append]
+      rw [ih (fun g hg => hl g (by simp [hg]))]
+  have hrun : ∀ (sts : List SStep) (s : σ), (∀ st ∈ sts, st.isPark = false) →
+      ∀ g ∈ (runSteps m s sts).1, ∃ r, g = .one r := by
+    intro sts
+    induction sts with
+    | nil => intro s _ g hg; simp [runSteps] at hg
+    | cons st sts ih =>
+      intro s hs g hg
+      simp only [runSteps, List.mem_cons] at hg
+      rcases hg with hg | hg
+      · have hst := hs st (by simp)
+        cases st with
+        | req c i => simp only [stepRec] at hg; split at hg <;> exact ⟨_, hg⟩
+        | done i e => exact ⟨_, hg⟩
+        | park i e k mid => simp [SStep.isPark] at hst
+        | bad => exact ⟨_, hg⟩
+      · exact ih _ (fun st h => hs st (by simp [h])) g hg
+  have hdrain : ∀ (is : List Image) (s : σ), ∀ g ∈ (drain m s is).1, ∃ r, g = .one r := by
+    intro is
+    induction is with
+    | nil => intro s g hg; simp [drain] at hg
+    | cons i is ih =>
+      intro s g hg
+      simp only [drain] at hg
+      split at hg
+      · simp only [List.mem_cons] at hg
+        rcases hg with hg | hg
+        · exact ⟨_, hg⟩
+        · exact ih _ g hg
+      · exact ih _ g hg
+  apply hone
+  intro g hg
+  simp only [traceG, List.mem_append, List.mem_cons, List.not_mem_nil, or_false] at hg
+  rcases hg with (hg | hg) | hg
+  · exact hrun steps _ hnp g hg
+  · exact hdrain _ _ g hg
+  · exact ⟨_, hg⟩
+
+/-- **model_trace_eq_spec_trace**: for every scenario without parked broadcasts (stream `seq`)
+the printed trace of the model of the Go code is, record for record, the printed trace of the
+specification. -/
+theorem model_trace_eq_spec_trace (steps : List SStep) (hnp : ∀ st ∈ steps, st.isPark = false) :
+    trace modelMachine steps = trace specMachine steps := by
+  rw [trace_eq_traceC_of_no_park _ steps hnp, trace_eq_traceC_of_no_park _ steps hnp]
+  exact model_trace_collapse_eq_spec steps
+
+/-! ### Atomicity: the lock scope, read off the source, and what it buys -/
+
+/-- expectation for `Pko.Gen.ReqMgrLocks.reqMgrLocks`:
+(method, lock kind, index of the lock statement, `defer Unlock()` directly after it, further calls
+on the mutex, in-flight table used outside the critical section) -/
+def expectedLocks : List (String × String × Nat × Bool × Nat × Bool) := [
+  ("handleRequest", "Lock", 0, true, 0, false),
+  ("handleResponse", "Lock", 0, true, 0, false)]
+
+/-- **locks_cover_bodies**: `handleRequest` and `handleResponse` take `inFlightLock` as their first
+statement, release it only through the `defer Unlock()` that follows directly (no other call on
+the mutex: no early unlock, no re-lock) and use `r.inFlight` neither before the lock nor inside a
+function literal: one call = one critical section = one step of `ReqMgr`.  Breaks when a critical
+section is narrowed or split. -/
+theorem locks_cover_bodies : Pko.Gen.ReqMgrLocks.reqMgrLocks = expectedLocks := by decide
+
+/-- **pull_runs_outside_lock**: the only goroutine started is the one in `handleRequest`, and it
+calls `pullImage` and then `handleResponse` (which takes the lock itself): the pull happens
+between a `request` step and its `complete` step, outside the lock. -/
+theorem pull_runs_outside_lock :
+    Pko.Gen.ReqMgrLocks.reqMgrGo =
+      [("handleRequest", [["pullImage", "handleResponse"]]), ("handleResponse", [])] ∧
+    Pko.Gen.ReqMgrLocks.reqMgrCallers =
+      [("handleRequest", ["Pull"]), ("handleResponse", ["handleRequest"])] := by decide
+
+/-- **only_lock_holders_touch_table**: no other function of the package reads or writes
+`inFlight` (the constructor initialises it in a composite literal). -/
+theorem only_lock_holders_touch_table :
+    Pko.Gen.ReqMgrLocks.reqMgrInFlightUsers = ["handleRequest", "handleResponse"] := by decide
+
+/-- **sent_package_is_fresh_copy**: the one send in `handleResponse` hands over a variable that is
+declared nil and only ever assigned `res.RawPackage.DeepCopy()` (`ReqMgr.copyOf`: nil or a fresh
+object per receiver; the pulled package itself is never handed out). -/
+theorem sent_package_is_fresh_copy :
+    Pko.Gen.ReqMgrLocks.reqMgrSent = [("recv", "rawPkg", true, ["res.RawPackage.DeepCopy()"])] := by
+  decide
+
+/-- **request_blocked_while_broadcasting**: in the statement-level model a `handleRequest` that
+arrives while `handleResponse` holds the lock (anywhere between its `Lock()` and the deletion of
+the entry) does not happen: nothing is registered in the entry that is about to be deleted. -/
+theorem request_blocked_while_broadcasting (s : FState) (c : Caller) (img : Image)
+    (h : s.bc.isSome) : fstep s (.request c img) = s := by
+  obtain ⟨b, bc⟩ := s
+  cases bc with
+  | none => simp at h
+  | some x => rfl
+
+/-- **fine_step_linearizes**: every statement-level step, looked at after the broadcast in
+progress has run to its end, is the lock-atomic steps of its linearisation (a request or a
+completion at the moment it takes the lock; nothing for loop iterations, the unlock and blocked
+attempts). -/
+theorem fine_step_linearizes (s : FState) (op : FOp) :
+    settled (fstep s op) = run (settled s) (lin s op) := C20Fine.settled_fstep s op
+
+/-- **fine_run_linearizes**: every statement-level interleaving (requests attempted at any point,
+including between two sends of a broadcast and between the last send and the deletion of the
+entry) ends, once the broadcast in progress has finished, in a state the lock-atomic machine
+reaches by the linearised steps. -/
+theorem fine_run_linearizes (fops : List FOp) :
+    settled (frun finit fops) = run init (linRun finit fops) := C20Fine.settled_frun finit fops
+
+/-- ... hence the invariants of the lock-atomic machine hold at statement level, e.g. at most one
+pull per image. -/
+theorem fine_at_most_one_pull (fops : List FOp) (img : Image) :
+    (settled (frun finit fops)).running img ≤ 1 := by
+  rw [fine_run_linearizes]; exact at_most_one_pull _ img
+
+/-- **parked_request_served_after_broadcast**: run a completion statement by statement, stop it
+after any number `k` of sends, let any requests arrive (`mid`; the runner issues those whose
+caller is free), let it finish: the state reached is the one in which the completion happened
+first and the requests after it - a request arriving during a broadcast is neither lost nor
+answered by it, it starts a fresh pull. -/
+theorem parked_request_served_after_broadcast (ops : List Op) (i : Image) (res : Result) (k : Nat)
+    (mid : List (Caller × Image)) (ws : List Recv) (hi : (run init ops).inFlight i = some ws) :
+    (parkModel (run init ops) i res k mid).2 =
+      run (run init ops) (.complete i res :: planOps (midPlan (abs (run init ops)) i k mid [] [])) := by
+  rw [C20Fine.parkModel_state _ (reachable_inv ops) i res k mid ws hi]
+  rfl
 
 /-! ### Non-vacuity -/
 
@@ -263,6 +418,25 @@ example :
         .step "d" ⟨true, [1, 0], [0, 0], [(0, .pkg 1), (1, .pkg 1)], 0⟩,
         .step "q" ⟨true, [2, 0], [1, 0], [], 0⟩,
         .step "D" ⟨true, [2, 0], [0, 0], [(2, .pkg 2)], 0⟩, .fin 0 ] := by
+  decide
+
+/-- A parked broadcast, statement by statement: callers 0 and 1 wait for pull 1 of image 0; the
+broadcast is parked after the first send (caller 0 answered, `P`); caller 0 asks for image 0 again
+(`w`: blocked on the lock), caller 1 cannot (still in `Pull`, `b`), caller 2's request for image 0
+is not issued either (one pending request per image, `b`); after the broadcast caller 1 is
+answered and caller 0's request has started pull 2 (`U`), which the drain completes. -/
+example :
+    trace modelMachine [.req 0 0, .req 1 0, .park 0 false 1 [(0, 0), (1, 0), (2, 0)]] =
+      [ .step "q" ⟨true, [1, 0], [1, 0], [], 0⟩, .step "q" ⟨true, [1, 0], [1, 0], [], 0⟩,
+        .step "P" ⟨true, [1, 0], [0, 0], [(0, .pkg 1)], 0⟩,
+        .step "w" ⟨false, [1, 0], [0, 0], [], 0⟩, .step "b" ⟨false, [1, 0], [0, 0], [], 0⟩,
+        .step "b" ⟨false, [1, 0], [0, 0], [], 0⟩,
+        .step "U" ⟨true, [2, 0], [1, 0], [(1, .pkg 1)], 0⟩,
+        .step "D" ⟨true, [2, 0], [0, 0], [(0, .pkg 2)], 0⟩, .fin 0 ] ∧
+    traceC specMachine [.req 0 0, .req 1 0, .park 0 false 1 [(0, 0), (1, 0), (2, 0)]] =
+      [ .step "q" ⟨true, [1, 0], [1, 0], [], 0⟩, .step "q" ⟨true, [1, 0], [1, 0], [], 0⟩,
+        .step "U" ⟨true, [2, 0], [1, 0], [(0, .pkg 1), (1, .pkg 1)], 0⟩,
+        .step "D" ⟨true, [2, 0], [0, 0], [(0, .pkg 2)], 0⟩, .fin 0 ] := by
   decide
 
 end Pko.Props.C20
